@@ -440,9 +440,78 @@ def assemble(unit_path, repo=REPO):
             ob = lo + m.end() - 1
             cb = rsx.match_close(src.masked, ob)
             elems = rsx.split_args(rsx.strip_comments(src.src[ob + 1:cb]))
+            if elems and all(re.match(r'^\(\s*"[^"]*"\s*,\s*&\s*\[.*\]\s*\)$', e, re.S) for e in elems):
+                # table of (code, &[codes]) pairs: emitted as Vec<(&str, Vec<&str>)>; the EXPECTED content comes from the
+                # unit (oracle lines `expect "X": "A", "B"` following the directive), the actual content from the code
+                pairs = []
+                for e in elems:
+                    mm = re.match(r'^\(\s*("[^"]*")\s*,\s*&\s*\[(.*)\]\s*\)$', e, re.S)
+                    pairs.append((mm.group(1), rsx.split_args(mm.group(2))))
+                exp = []
+                j = i + 1
+                while j < len(src_lines) and src_lines[j].startswith('//@expect '):
+                    em = re.match(r'//@expect\s+("[^"]*")\s*:\s*(.*)$', src_lines[j])
+                    exp.append((em.group(1), [x.strip() for x in em.group(2).split(',') if x.strip()]))
+                    j += 1
+                ens = ['r@.len() == %d' % len(exp)]
+                for k, (c, fs) in enumerate(exp):
+                    ens.append('r@[%d].0@ == %s@' % (k, c))
+                    ens.append('r@[%d].1@.len() == %d' % (k, len(fs)))
+                    for q, fcode in enumerate(fs):
+                        ens.append('r@[%d].1@[%d]@ == %s@' % (k, q, fcode))
+                fr = FnRec(file, name, scope, name, kv.get('impl'))
+                fr.impl = kv.get('impl')
+                first = len(asm.lines) + 1
+                text = ''
+                if kv.get('impl'):
+                    text += 'impl %s {\n' % kv['impl']
+                text += "pub fn %s() -> (r: Vec<(&'static str, Vec<&'static str>)>)\n    ensures\n" % name
+                asm.add(text.rstrip('\n'))
+                for en in ens:
+                    cl = Clause('%s/table.%s' % (name, re.sub(r'[^A-Za-z0-9_.]', '_', en)[:60]), set(kv.get('props', 'C04').split(',')), fr, en)
+                    cl.lines = asm.add('        %s,' % en)
+                    asm.clauses.append(cl); fr.clauses.append(cl); fr.props |= cl.props
+                body = '{\n    vec![%s]\n}' % ', '.join('(%s, vec![%s])' % (c, ', '.join(fs)) for c, fs in pairs)
+                asm.add(body)
+                if kv.get('impl'):
+                    asm.add('}')
+                fr.lines = (first, len(asm.lines))
+                asm.fns.append(fr)
+                asm.types.append('%s const table %s (as fn, %d rows)' % (file, name, len(pairs)))
+                asm.constfns = getattr(asm, 'constfns', []) + [name]
+                i = j
+                continue
             if not all(re.match(r'^"(\\.|[^"\\])*"$', e) for e in elems):
                 raise ExtractError('constfn: %s has non-literal elements' % name)
-            ens = ['r@.len() == %d' % len(elems)] + ['r@[%d]@ == %s@' % (k, e) for k, e in enumerate(elems)]
+            exp_elems = None
+            j = i + 1
+            while j < len(src_lines) and src_lines[j].startswith('//@expect '):
+                exp_elems = (exp_elems or []) + [x.strip() for x in src_lines[j][len('//@expect '):].split(',') if x.strip()]
+                j += 1
+            pinned = exp_elems is not None
+            ref = exp_elems if pinned else elems
+            ens = ['r@.len() == %d' % len(ref)] + ['r@[%d]@ == %s@' % (k, e) for k, e in enumerate(ref)]
+            if pinned:
+                # expected content given by the unit (oracle): each line is a named obligation
+                fr = FnRec(file, name, scope, name, kv.get('impl'))
+                fr.impl = kv.get('impl')
+                first = len(asm.lines) + 1
+                if kv.get('impl'):
+                    asm.add('impl %s {' % kv['impl'])
+                asm.add("pub fn %s() -> (r: Vec<&'static str>)\n    ensures" % name)
+                for en in ens:
+                    cl = Clause('%s/table.%s' % (name, re.sub(r'[^A-Za-z0-9_.]', '_', en)[:60]), set(kv.get('props', 'C04').split(',')), fr, en)
+                    cl.lines = asm.add('        %s,' % en)
+                    asm.clauses.append(cl); fr.clauses.append(cl); fr.props |= cl.props
+                asm.add('{\n    vec![%s]\n}' % ', '.join(elems))
+                if kv.get('impl'):
+                    asm.add('}')
+                fr.lines = (first, len(asm.lines))
+                asm.fns.append(fr)
+                asm.types.append('%s const %s (as fn, pinned to %d expected literals)' % (file, name, len(ref)))
+                asm.constfns = getattr(asm, 'constfns', []) + [name]
+                i = j
+                continue
             text = ''
             if kv.get('impl'):
                 text += 'impl %s {\n' % kv['impl']
@@ -456,7 +525,18 @@ def assemble(unit_path, repo=REPO):
             i += 1
         elif d == 'const':
             file, name = toks[1], toks[2]
+            ckv = parse_kv(toks[3:])
             src = rsx.Source.get(os.path.join(repo, file))
+            if ckv.get('impl'):
+                # associated scalar const: `const NAME: T = expr;` inside an impl block
+                m_ = re.search(r'(?<![A-Za-z0-9_])(pub\s+)?const\s+' + re.escape(name) + r'\s*:[^;]*;', src.masked)
+                if not m_:
+                    raise ExtractError('assoc const %s not found' % name)
+                text = 'impl %s { pub %s }' % (ckv['impl'], re.sub(r'^pub\s+', '', src.src[m_.start():m_.end()]))
+                asm.types.append('%s assoc const %s' % (file, name))
+                asm.add(rsx.strip_comments(text))
+                i += 1
+                continue
             try:
                 text = src.item('const', name)
             except ExtractError:
